@@ -99,12 +99,13 @@ def rnd_field(rng, layout, name):
 def akai_program_items(rng, n: int):
     items = []
     for i in range(n):
-        nk = rng.choice([1, 1, 2, 2, 2, 3, 5])
+        sparse = i % 3 == 0            # few non-empty zones: 4-5 keygroups stay under the 300-line cap
+        nk = rng.choice([3, 4, 4, 5]) if sparse else rng.choice([1, 1, 2, 2, 2, 3, 5])
         kgs = []
         for _ in range(nk):
             zones = []
             for z in range(4):
-                zones.append(dict(sample_name=rng.choice(["", akai_name(rng)]), low_velocity=S(rng.randrange(128)), high_velocity=S(rng.randrange(128)),
+                zones.append(dict(sample_name=(rng.choice(["", "", "", akai_name(rng)]) if sparse else rng.choice(["", akai_name(rng)])), low_velocity=S(rng.randrange(128)), high_velocity=S(rng.randrange(128)),
                                   tune_cents=rng.randrange(-128, 128), tune_semitones=S(rng.randrange(-128, 128)),
                                   loudness_offset=S(rng.randrange(-128, 128)), filter_cutoff_offset=S(rng.randrange(-128, 128)),
                                   pan_offset=S(rng.randrange(-128, 128)), loop_mode=rng.randrange(0, 6)))
@@ -121,7 +122,7 @@ def akai_program_items(rng, n: int):
                   keygroup_crossfade=rng.choice([0, 1, 9]), fx_output=rng.choice([0, 1]), stereo_coherence=rng.choice([0, 1, 2]),
                   lfo_desync=rng.choice([0, 1]), tune_cents=rng.randrange(-128, 128), voice_output_scale_db=rng.randrange(0, 5),
                   stereo_output_scale_db=rng.randrange(0, 4), key_temperaments=[S(rng.randrange(256)) for _ in range(12)], keygroups=kgs,
-                  perm=rng.random())
+                  perm=rng.random(), layout=["standard", "standard", "gapped"][i % 3])
         items.append(st)
     return items
 
@@ -131,8 +132,15 @@ def program_bytes(st, rng) -> bytes:
     nk = len(st["keygroups"])
     slots = list(range(nk))
     random.Random(st["perm"]).shuffle(slots)
-    base = 72 + rng.randrange(0, 40)
-    addr = [base + slots[i] * (150 + 7) for i in range(nk)]          # keygroup i lives at addr[i]
+    if st.get("layout") == "standard" and int(st["perm"] * 10) % 2:      # chain starts in the first slot, the rest is permuted
+        slots.remove(0)
+        slots.insert(0, 0)
+    if st.get("layout") == "standard":       # the usual geometry: 150-byte slots from address 150, visited in permuted order
+        base = 150
+        addr = [150 * (slots[i] + 1) for i in range(nk)]
+    else:
+        base = 72 + rng.randrange(0, 40)
+        addr = [base + slots[i] * (150 + 7) for i in range(nk)]      # keygroup i lives at addr[i]
     buf = bytearray(base + nk * 157 + 10)
     hv = {k: int(v) for k, v in st["ints"].items()}
     hv.update(first_keygroup_address=addr[0], program_name=st["program_name"], midi_channel=st["midi_channel"],
@@ -261,7 +269,7 @@ def run(chk: Check):
                 if trunc:
                     over_cap += 1          # the property speaks of listings under the 300-line cap
                     continue
-                st = {k: v for k, v in it.items() if k not in ("perm",)}
+                st = {k: v for k, v in it.items() if k not in ("perm", "layout")}
                 events.append({"kind": "akai_program", "id": f"akai program {it['file_name']} ({hdr[:40]})", "stored": st, "printed": printed_akai_program(tree)})
         for b in range(batches[2]):
             items = roland_items(rng, per)
